@@ -2306,3 +2306,94 @@ func flagNestProps(fkey string) []string {
 	}
 	return bufProps(fkey)
 }
+
+// ---- GALMOD
+//
+// Galois elements live in (Z/NthRoot)^*, and NthRoot is 2N in the standard ring but 4N in the conjugate-invariant
+// ring. An exponentiation of a Galois element (inverse, power of the generator, discrete logarithm) carried out modulo
+// 2N gives the right answer in the standard ring, which is what the tests use, and a wrong automorphism in the other.
+//
+// Rule: every call of ring.ModExp / ring.ModExpPow2 whose base is a Galois element (its text mentions gal/Gal, e.g.
+// galEl, GaloisGen, gk.GaloisElement) has a modulus argument that is, or is a local defined from, an NthRoot() accessor.
+
+func scanGalMod(c *core.Ctx) []ob {
+	var out []ob
+	n := 0
+	c.FuncDecls(func(pk *packages.Package, file *ast.File, fd *ast.FuncDecl) {
+		if fd.Body == nil || fileIsTestSupport(c.Program, fd.Pos()) || inExamples(pk) {
+			return
+		}
+		info := pk.TypesInfo
+		fkey := core.FuncKey(pk, fd)
+		// single-definition locals
+		defs := map[types.Object][]ast.Expr{}
+		ast.Inspect(fd.Body, func(x ast.Node) bool {
+			if as, ok := x.(*ast.AssignStmt); ok && len(as.Lhs) == len(as.Rhs) {
+				for i, l := range as.Lhs {
+					if o := identObj(info, l); o != nil {
+						defs[o] = append(defs[o], as.Rhs[i])
+					}
+				}
+			}
+			return true
+		})
+		var fromNthRoot func(e ast.Expr, depth int) bool
+		fromNthRoot = func(e ast.Expr, depth int) bool {
+			if strings.Contains(exprString(e), "NthRoot") || strings.Contains(exprString(e), "nthRoot") && depth == 0 {
+				if strings.Contains(exprString(e), "NthRoot") {
+					return true
+				}
+			}
+			if depth > 3 {
+				return false
+			}
+			ok := false
+			ast.Inspect(e, func(x ast.Node) bool {
+				if id, isId := x.(*ast.Ident); isId && !ok {
+					if o := info.Uses[id]; o != nil {
+						if ds := defs[o]; len(ds) == 1 && fromNthRoot(ds[0], depth+1) {
+							ok = true
+						}
+					}
+				}
+				return !ok
+			})
+			return ok
+		}
+		ast.Inspect(fd.Body, func(x ast.Node) bool {
+			call, ok := x.(*ast.CallExpr)
+			if !ok || len(call.Args) != 3 {
+				return true
+			}
+			f := calleeFunc(info, call)
+			if f == nil || (f.Name() != "ModExp" && f.Name() != "ModExpPow2") || f.Pkg() == nil || !strings.HasSuffix(f.Pkg().Path(), "/ring") {
+				return true
+			}
+			base := exprString(call.Args[0])
+			if !strings.Contains(strings.ToLower(base), "gal") {
+				return true
+			}
+			n++
+			key := fmt.Sprintf("GALMOD:%s#%s(%s)", fkey, f.Name(), base)
+			if fromNthRoot(call.Args[2], 0) {
+				out = append(out, okOb("GALMOD", key, c.Rel(call.Pos()), "the Galois element is exponentiated modulo NthRoot", true))
+			} else {
+				out = append(out, violOb("GALMOD", key, c.Rel(call.Pos()), fmt.Sprintf("%s exponentiates the Galois element %s modulo %s, which is not derived from NthRoot(): the group of Galois elements is (Z/NthRoot)^*, and NthRoot is 4N, not 2N, in the conjugate-invariant ring", fkey, base, exprString(call.Args[2]))))
+			}
+			return true
+		})
+	})
+	c.Stats["galmod_sites"] = n
+	return out
+}
+
+func init() {
+	core.Register(&core.Rule{Name: "GALMOD", Props: []string{"C11", "C14", "C04"},
+		Doc: "every modular exponentiation of a Galois element (ring.ModExp / ModExpPow2 with a base named after gal/Galois) is carried out modulo a value derived from NthRoot() (2N in the standard ring, 4N in the conjugate-invariant ring), never modulo 2N spelled out",
+		Run: func(c *core.Ctx) []ob {
+			out := scanGalMod(c)
+			out = append(out, control(c, "GALMOD", scanGalMod, "lvfixture.invGal")...)
+			out = append(out, core.Floor("GALMOD", nil, "exponentiations of Galois elements", c.Stats["galmod_sites"], 5)...)
+			return out
+		}})
+}
